@@ -25,6 +25,8 @@ pub struct Node {
     pub reg: Reg,
     /// a client also holds a strong handle to it (for a while)
     pub outside: bool,
+    /// ... and that client stops it right away (a child that dies while its parent lives)
+    pub outside_stops: bool,
 }
 
 pub struct S {
@@ -86,7 +88,14 @@ impl Scene for S {
         }
         // driver: broadcasts, then the terminating action on the root
         let root = addrs[0].clone().unwrap();
-        let mut ops: Vec<Op> = self.bcasts.iter().map(|(ty, id)| Op::Cmd(H::Addr(0), *id, Action::Broadcast { ty: *ty, id: *id })).collect();
+        let mut ops: Vec<Op> = vec![];
+        for (k, (ty, id)) in self.bcasts.iter().enumerate() {
+            // in trees with a dying child the second broadcast comes a tick later (the child is gone by then)
+            if k == 1 && self.nodes.iter().any(|n| n.outside_stops) {
+                ops.push(Op::Sleep(1));
+            }
+            ops.push(Op::Cmd(H::Addr(0), *id, Action::Broadcast { ty: *ty, id: *id }));
+        }
         match self.cause {
             Cause::StopClient | Cause::StoppedPanic | Cause::Cancel(_) => ops.push(Op::Stop(H::Addr(0))),
             Cause::LastDrop | Cause::StartErr | Cause::StartPanic => {}
@@ -106,7 +115,12 @@ impl Scene for S {
         let mut c = 2u8;
         for n in self.nodes.iter().filter(|n| n.outside) {
             let h = Handles::with_addr(addrs[n.role as usize].clone().unwrap());
-            exec.spawn_client(c, run_client(c, h, vec![Op::Sleep(8), Op::Call(H::Addr(0), 900 + n.role as u32), Op::Drop(H::Addr(0))]));
+            let ops = if n.outside_stops {
+                vec![Op::Stop(H::Addr(0)), Op::Sleep(8), Op::Drop(H::Addr(0))]
+            } else {
+                vec![Op::Sleep(8), Op::Call(H::Addr(0), 900 + n.role as u32), Op::Drop(H::Addr(0))]
+            };
+            exec.spawn_client(c, run_client(c, h, ops));
             c += 1;
         }
         drop(addrs);
@@ -136,7 +150,13 @@ impl Scene for S {
             let p = n.parent.unwrap();
             let p_end = end_of(p);
             // held by the parent until the parent terminates
+            if n.outside_stops {
+                // stopped on purpose by its outside holder: only the broadcast clause (for its
+                // siblings) is of interest
+                continue;
+            }
             if let Some(se) = stopped_enter(n.role) {
+                crate::check::oblige("child-kept-until-parent-ends");
                 let released_by_parent = p_end.is_some_and(|pe| pe < se);
                 if !released_by_parent {
                     out.push(Violation {
@@ -159,6 +179,7 @@ impl Scene for S {
             }
             // released: once the parent is gone (and the outside handle too) the child drains and stops
             if root_started && p_end.is_some() && t.res.end == crate::vexec::EndReason::Quiescent {
+                crate::check::oblige("child-released-and-stops");
                 if stopped_exit(n.role).is_none() || end_of(n.role).is_none() {
                     out.push(Violation {
                         clause: "child-released-and-stops",
@@ -202,6 +223,20 @@ impl Scene for S {
             for n in self.nodes.iter().filter(|n| n.parent.is_some()) {
                 let got = an.enters.iter().filter(|e| e.a == n.role && e.cb == (Cb::Bcast { ty: *ty, id: *id })).count();
                 let want = usize::from(delivered_by_root && n.parent == Some(0) && n.reg == Reg::Ty(*ty));
+                if n.outside_stops {
+                    // may or may not have been alive when the broadcast reached it
+                    if got > 1 {
+                        out.push(Violation {
+                            clause: "broadcast-exactly-once-to-registered",
+                            key: format!("{pid}/broadcast-count/got=2/want=1"),
+                            detail: format!("broadcast {id}: child {} handled it {got} times", n.role),
+                        });
+                    }
+                    continue;
+                }
+                if want == 1 {
+                    crate::check::oblige("broadcast-delivered");
+                }
                 let settled = t.res.end == crate::vexec::EndReason::Quiescent;
                 if got > want || (got < want && settled) {
                     out.push(Violation {
@@ -251,15 +286,16 @@ pub fn causes(tier: Tier) -> Vec<Cause> {
 fn tree_name(nodes: &[Node]) -> String {
     nodes
         .iter()
-        .map(|n| format!("{}<-{}{}{}", n.role, n.parent.map(|p| p.to_string()).unwrap_or("-".into()), match n.reg { Reg::Add => "a".into(), Reg::Ty(t) => format!("t{t}") }, if n.outside { "o" } else { "" }))
+        .map(|n| format!("{}<-{}{}{}{}", n.role, n.parent.map(|p| p.to_string()).unwrap_or("-".into()), match n.reg { Reg::Add => "a".into(), Reg::Ty(t) => format!("t{t}") }, if n.outside { "o" } else { "" }, if n.outside_stops { "x" } else { "" }))
         .collect::<Vec<_>>()
         .join(",")
 }
 
 fn cases(tier: Tier) -> Vec<Case> {
     let mut v = vec![];
-    let root = Node { role: 0, parent: None, reg: Reg::Add, outside: false };
-    let n = |role, parent, reg, outside| Node { role, parent: Some(parent), reg, outside };
+    let root = Node { role: 0, parent: None, reg: Reg::Add, outside: false, outside_stops: false };
+    let n = |role, parent, reg, outside| Node { role, parent: Some(parent), reg, outside, outside_stops: false };
+    let dying = |role, parent, reg| Node { role, parent: Some(parent), reg, outside: true, outside_stops: true };
     let mut trees: Vec<Vec<Node>> = vec![
         vec![root, n(1, 0, Reg::Add, false)],
         vec![root, n(1, 0, Reg::Ty(1), false)],
@@ -267,6 +303,10 @@ fn cases(tier: Tier) -> Vec<Case> {
         vec![root, n(1, 0, Reg::Ty(1), false), n(2, 0, Reg::Ty(2), false)],
         vec![root, n(1, 0, Reg::Ty(1), false), n(2, 0, Reg::Ty(1), true)],
         vec![root, n(1, 0, Reg::Add, false), n(2, 0, Reg::Ty(2), false)],
+        // a child that is stopped from outside while the parent lives, with siblings of the same type
+        vec![root, dying(1, 0, Reg::Ty(1)), n(2, 0, Reg::Ty(1), false)],
+        vec![root, n(1, 0, Reg::Ty(1), false), dying(2, 0, Reg::Ty(1)), n(3, 0, Reg::Ty(1), false)],
+        vec![root, dying(1, 0, Reg::Ty(1)), dying(2, 0, Reg::Ty(1)), n(3, 0, Reg::Ty(1), false)],
         // depth 2
         vec![root, n(1, 0, Reg::Ty(1), false), n(2, 1, Reg::Ty(1), false)],
         vec![root, n(1, 0, Reg::Add, true), n(2, 1, Reg::Add, false)],
@@ -276,7 +316,7 @@ fn cases(tier: Tier) -> Vec<Case> {
         trees.push(vec![root, n(1, 0, Reg::Ty(1), false), n(2, 1, Reg::Ty(2), false), n(3, 2, Reg::Add, false)]);
         trees.push(vec![root, n(1, 0, Reg::Ty(1), false), n(2, 0, Reg::Ty(1), false), n(3, 1, Reg::Ty(1), false), n(4, 1, Reg::Add, true), n(5, 2, Reg::Ty(2), false)]);
     }
-    let bsets: Vec<Vec<(u8, u32)>> = vec![vec![], vec![(1, 601)], vec![(1, 601), (2, 602)]];
+    let bsets: Vec<Vec<(u8, u32)>> = vec![vec![], vec![(1, 601)], vec![(1, 601), (2, 602)], vec![(1, 601), (1, 603)]];
     let mbs: &[Mailbox] = if tier == Tier::Quick { &[Mailbox::U] } else { &[Mailbox::U, Mailbox::B(1)] };
     for tree in &trees {
         for cause in causes(tier) {
@@ -286,7 +326,7 @@ fn cases(tier: Tier) -> Vec<Case> {
                     v.push(Case {
                         desc: format!("children tree={} cause={:?} bcasts={:?} mailbox={}", tree_name(tree), cause, bc, mb.name()),
                         exec: ExecCfg { horizon: 30, cancel: if let Cause::Cancel(j) = cause { Some((root_spawn_index(tree), j)) } else { None }, ..ExecCfg::default() },
-                        bound: if big { Some(if tier == Tier::Quick { 5 } else { 7 }) } else { None },
+                        bound: if tree.len() >= 4 { Some(if tier == Tier::Quick { 3 } else { 5 }) } else if big { Some(if tier == Tier::Quick { 4 } else { 7 }) } else { None },
                         scene: Box::new(S { nodes: tree.clone(), cause, bcasts: bc.clone(), mailbox: mb, pid: "C16" }),
                     });
                 }
@@ -305,6 +345,7 @@ pub fn property() -> Property {
     Property {
         id: "C16",
         cases,
+        clauses: &["child-kept-until-parent-ends", "child-released-and-stops", "broadcast-delivered"],
         assumptions: &[
             "trees with three or more nodes are explored with a deviation bound (quick 3, thorough 4); two-node trees with all schedules",
             "a cancellation of the root before its first poll is not in the family (its started() has not yet taken the children's handles from the harness)",
